@@ -558,6 +558,46 @@ bad:
 	return 1;
 }
 
+
+/* The iterators and bintree_free are the constant-stack alternative to the recursive traversals: in the DEEP pass (and
+ * for every replay of it) they run on a stack of their own, C11_SMALL_STACK bytes with an inaccessible page below, so
+ * stack use that grows with the depth of the tree faults there instead of hiding in the 1 GiB the harness gives the
+ * recursive yardstick (seeded/C11-r5). The fault arrives on the alternate signal stack and leaves through VX_TRY. */
+#include <ucontext.h>
+#define C11_SMALL_STACK (32 * 1024)
+static ucontext_t ss_main, ss_ctx;
+static void (*ss_fn)(void *); static void *ss_arg; static uint8_t *ss_mem;
+static void ss_tramp(void) { ss_fn(ss_arg); }
+static void on_small_stack(void (*fn)(void *), void *arg)
+{
+	if (!ss_mem) {
+		ss_mem = mmap(NULL, C11_SMALL_STACK + 4096, PROT_READ | PROT_WRITE, MAP_PRIVATE | MAP_ANONYMOUS, -1, 0);
+		if (ss_mem == MAP_FAILED || mprotect(ss_mem, 4096, PROT_NONE)) { fprintf(stderr, "c11: no small stack\n"); exit(3); }
+	}
+	getcontext(&ss_ctx);
+	ss_ctx.uc_stack.ss_sp = ss_mem + 4096; ss_ctx.uc_stack.ss_size = C11_SMALL_STACK; ss_ctx.uc_link = &ss_main;
+	makecontext(&ss_ctx, ss_tramp, 0);
+	ss_fn = fn; ss_arg = arg;
+	swapcontext(&ss_main, &ss_ctx);
+}
+static int use_small_stack(void) { return C.pass == PASS_DEEP; }
+
+struct iter_args { int op, j, size, small; int32_t *got; volatile int *got_n, *overflow, *rewrote; bintree_iterator_t *it; bintree_node_t *root; };
+static void iter_body(void *p)
+{
+	struct iter_args *a = p;
+	bintree_node_t *n = a->op == OP_IT_IN ? bintree_iterate_in_order(a->it, a->root)
+	  : a->op == OP_IT_PRE ? bintree_iterate_pre_order(a->it, a->root) : bintree_iterate_post_order(a->it, a->root);
+	while (n) {
+		if (*a->got_n > a->size + 1) { *a->overflow = 1; break; }
+		a->got[(*a->got_n)++] = id_of(n);
+		vx_opseq++;
+		if (a->small && !*a->rewrote && memcmp(arena_mem, image0, arena_used)) *a->rewrote = 1;
+		if (a->j >= 0 && *a->got_n == a->j) { bintree_iterate_complete(a->it); break; }
+		n = bintree_next(a->it);
+	}
+}
+
 static void run_iter_case(int op, int s, int j)
 {
 	static const char *cn[] = { "op_iter_in", "op_iter_pre", "op_iter_post" };
@@ -568,7 +608,7 @@ static void run_iter_case(int op, int s, int j)
 	volatile int got_n = 0;
 	volatile int overflow = 0, rewrote = 0, faulted = 0, trav_fault = 0, trav_done = 0;
 	bintree_iterator_t it;
-	bintree_node_t *root = NA(s), *n;
+	bintree_node_t *root = NA(s);
 
 	C.op = op; C.sub = s; C.j = j; C.owner = -1;
 	vx_lib_reset();		/* a static the library may keep cannot leak from one case into the next */
@@ -597,16 +637,9 @@ static void run_iter_case(int op, int s, int j)
 
 	memset(&it, 0x5a, sizeof(it));
 	if (VX_TRY) {
-		n = op == OP_IT_IN ? bintree_iterate_in_order(&it, root)
-		  : op == OP_IT_PRE ? bintree_iterate_pre_order(&it, root) : bintree_iterate_post_order(&it, root);
-		while (n) {
-			if (got_n > size + 1) { overflow = 1; break; }
-			got[got_n++] = id_of(n);
-			vx_opseq++;
-			if (small && !rewrote && memcmp(arena_mem, image0, arena_used)) rewrote = 1;
-			if (j >= 0 && got_n == j) { bintree_iterate_complete(&it); break; }
-			n = bintree_next(&it);
-		}
+		struct iter_args ia = { op, j, size, small, got, &got_n, &overflow, &rewrote, &it, root };
+		if (use_small_stack()) { CNT("iterations_run_on_the_small_stack", 1); on_small_stack(iter_body, &ia); }
+		else iter_body(&ia);
 		VX_END;
 	} else {
 		VX_END; faulted = 1;
@@ -695,6 +728,14 @@ static void dealloc_cb(bintree_node_t *n)
 		memcpy(n, &poison_img, NSZ);
 }
 
+struct free_args { int op; bintree_node_t *root; };
+static void free_body(void *p)
+{
+	struct free_args *a = p;
+	if (a->op == OP_FREE) bintree_free(a->root, dealloc_cb);
+	else if (a->op == OP_FREE_L) bintree_free_left(a->root, dealloc_cb);
+	else bintree_free_right(a->root, dealloc_cb);
+}
 static void run_free_case(int op, int s)
 {
 	static const char *cn[] = { "op_free", "op_free_left", "op_free_right" };
@@ -715,9 +756,9 @@ static void run_free_case(int op, int s)
 	CNT(g_guard ? gn[op - OP_FREE] : cn[op - OP_FREE], 1);
 
 	if (VX_TRY) {
-		if (op == OP_FREE) bintree_free(root, dealloc_cb);
-		else if (op == OP_FREE_L) bintree_free_left(root, dealloc_cb);
-		else bintree_free_right(root, dealloc_cb);
+		struct free_args fa_ = { op, root };
+		if (use_small_stack()) { CNT("frees_run_on_the_small_stack", 1); on_small_stack(free_body, &fa_); }
+		else free_body(&fa_);
 		VX_END;
 	} else {
 		VX_END;
